@@ -782,3 +782,29 @@ V("c07-edges-open-chain-concatenate", "fault", "C07", P + "polyhedron.py",
   "                for i, j in zip(face, np.roll(face, -1))\n", "                for i, j in zip(face[:-1], face[1:])\n", rule="EDG-1")
 V("c07-rw-edges-wraparound-concatenate", "rewrite", "C07", P + "polyhedron.py",
   "                for i, j in zip(face, np.roll(face, -1))\n", "                for i, j in zip(face, np.concatenate((face[1:], face[:1])))\n")
+
+# ---- batch 8
+_ELL_OLD = """        return np.sqrt(
+            (self.a * self.a + self.b * self.b)
+            / (
+                1
+                + (self.a * self.a)
+                / (self.b * self.b)
+                * np.sin(angles)
+                * np.sin(angles)
+                + (self.b * self.b)
+                / (self.a * self.a)
+                * np.cos(angles)
+                * np.cos(angles)
+            )
+        )
+"""
+V("c14-rw-ellipse-polar-form", "rewrite", "C14", P + "ellipse.py", _ELL_OLD,
+  "        angles = np.asarray(angles)\n        return (self.a * self.b) / np.hypot(self.b * np.cos(angles), self.a * np.sin(angles))\n")
+V("c14-ellipse-polar-form-axes-swapped", "fault", "C14", P + "ellipse.py", _ELL_OLD,
+  "        angles = np.asarray(angles)\n        return (self.a * self.b) / np.hypot(self.a * np.cos(angles), self.b * np.sin(angles))\n", rule="ELL-2")
+V("c08-centroid-setter-validates-late", "fault", "C08", P + "convex_polyhedron.py",
+  "        assert len(value) == 3, \"Centroid must be a point in 3-space.\"\n        self._vertices += np.asarray(value) - self.centroid\n",
+  "        self._vertices += np.asarray(value) - self.centroid\n        assert len(value) == 3, \"Centroid must be a point in 3-space.\"\n", rule="GUARD-5")
+V("c13-bounded-circle-cross-z", "fault", "C13", P + "convex_polygon.py",
+  "        distances = np.linalg.norm(np.cross(points, deltas), axis=-1)\n", "        distances = np.abs(np.cross(points, deltas)[:, 2])\n", rule="FRAME-2")
